@@ -48,7 +48,7 @@ func isStoreConst(in ssa.Instruction, f *types.Var, c int64) bool {
 	if !atomicOp(in, f, "Store") {
 		return false
 	}
-	a := callArgs(in)
+	a := atomicArgs(in, f, "Store")
 	if len(a) != 1 {
 		return false
 	}
@@ -60,7 +60,7 @@ func isCASConst(in ssa.Instruction, f *types.Var, from, to int64) bool {
 	if !atomicOp(in, f, "CompareAndSwap") {
 		return false
 	}
-	a := callArgs(in)
+	a := atomicArgs(in, f, "CompareAndSwap")
 	if len(a) != 2 {
 		return false
 	}
